@@ -103,6 +103,12 @@ class Mini:
         self.bad(s, "statement form")
 
 
+class ImageLost(Exception):
+    def __init__(self, node, msg):
+        Exception.__init__(self, msg)
+        self.node = node
+
+
 class Builder:
     def __init__(self, facts, cls, name):
         ms = [m for m in facts.methods_of(cls) if m["name"] == name and not m.get("inst") and tbf.body(m) is not None]
@@ -274,6 +280,17 @@ class Builder:
             loops = [l for l in walk(body) if l.get("k") == "ForStmt" and any(y.get("k") == "CompoundAssignOperator" and y.get("op") in ("+=", "-=") and strip(kids(y)[0]).get("k") in ("ArraySubscriptExpr", "CXXOperatorCallExpr")
                                                                        and any(z.get("did") in self.limits for z in walk(kids(y)[1])) for y in walk(kids(l)[-1]))]
             if len(loops) != 1:
+                # the modulo form `p[d] = (p[d] + limit) % limit` wraps the coordinate but forgets WHICH image it came from
+                mods = [y for y in walk(body) if y.get("k") == "BinaryOperator" and y.get("op") == "=" and strip(kids(y)[0]).get("k") in ("ArraySubscriptExpr", "CXXOperatorCallExpr")
+                        and any(z.get("k") == "BinaryOperator" and z.get("op") == "%" and any(w.get("did") in self.limits for w in walk(kids(z)[1])) for z in walk(kids(y)[1]))]
+                if mods and not loops:
+                    lp = [a for a in tbf.ancestors(mods[0]) if a.get("k") == "ForStmt"]
+                    scope = lp[0] if lp else body
+                    shifts = [y for y in walk(scope) if y.get("k") == "BinaryOperator" and y.get("op") == "=" and y is not mods[0] and strip(kids(y)[0]).get("k") in ("ArraySubscriptExpr", "CXXOperatorCallExpr")
+                              and any(w.get("did") in self.limits for w in walk(kids(y)[1]))]
+                    if not shifts:
+                        raise ImageLost(mods[0], "the candidate parent is wrapped by `%s` and nothing records the shift (which image of the box it was taken from): the children's relative position can then only be reconstructed as the nearest image, "
+                                        "which lists a cell once where the periodic interaction list needs it once per image - at the levels with few cells per dimension the same cell is a far neighbour through several images" % self.facts.ntext(mods[0])[:70])
                 raise AnalysisBroken("%s: the periodic wrap of the candidate parent was not recognised (%d loops)" % (self.fn["qname"], len(loops)))
             self._wraploop = loops[0]
             upd = [strip(kids(strip(kids(y)[0]))[-2]).get("did") for y in walk(kids(loops[0])[-1]) if y.get("k") == "CompoundAssignOperator" and y.get("op") in ("+=", "-=")]
@@ -440,6 +457,11 @@ def check_periodic(facts, res, R, cls, U, thorough=False):
     selfx = neighbour_filters(facts, near)[0]
     if selfx is None:
         raise AnalysisBroken("%s: self exclusion of the neighbour list not recognised" % near.fn["qname"])
+    try:
+        far.wrap(-1, 3)
+    except ImageLost as e_:
+        res.violation(R, f, far.fn["qname"], "image-lost", e_.node["l"][1], str(e_))
+        return 1
     res.instance(R, "%s periodic constants" % cls, facts.loc(far.fn), "interaction list: window %s (no clamp), wrap of parent -1 at level 3 -> %s, of parent 4 -> %s, far iff some |d| > %d, empty below level %d; neighbour window %s; transfers from level U = %d"
                  % (far.window(0, 3, True), far.wrap(-1, 3), far.wrap(4, 3), T, G, near.window(0, 3, True), U))
     n = 0
